@@ -131,7 +131,9 @@ def ub_event(stderr):
         w = re.search(r"runtime error: ([^\n]{0,80})", stderr)
         what = re.sub(r"0x[0-9a-f]+|\d+", "N", w.group(1)) if w else ""
     fn = re.search(r"#\d+ 0x[0-9a-f]+ in (sbepp::sbeppc::[\w:]+)", stderr)
-    return {"ev": "ub", "kind": kind, "what": what, "where": fn.group(1) if fn else ""}
+    what = re.sub(r"\s+on$", "", what)
+    where = fn.group(1) if (fn and "stack-overflow" not in what) else ""
+    return {"ev": "ub", "kind": kind, "what": what, "where": where}
 
 
 def abort_reason(stderr):
@@ -149,6 +151,23 @@ def abort_reason(stderr):
     if "terminate called" in stderr:
         return "terminate"
     return ""
+
+
+_pub_lib = []
+
+
+def public_libs(binary):
+    """The sbeppc builds link libraries below /root (mode 700): an unprivileged run needs readable copies."""
+    if not _pub_lib:
+        d = vlib.ensure_dir(os.path.join(vlib.CACHE, "c09", "lib"))
+        p = subprocess.run(["ldd", binary], stdout=subprocess.PIPE, stderr=subprocess.DEVNULL, text=True)
+        for m in re.finditer(r"(\S+)\s*=>\s*(/root/\S+)", p.stdout):
+            dst = os.path.join(d, m.group(1))
+            if not os.path.exists(dst):
+                shutil.copy(m.group(2), dst + ".tmp%d" % os.getpid())
+                os.replace(dst + ".tmp%d" % os.getpid(), dst)
+        _pub_lib.append(d)
+    return _pub_lib[0]
 
 
 class Fixture:
@@ -236,6 +255,8 @@ def run_files(binary, kind, files, argv_tokens, workdir, run_id, schema, asuser=
         os.chmod(logp, 0o666)
         os.chmod(rd, 0o777)
         kw = {"user": 65534, "group": 65534, "extra_groups": []}
+        env["LD_LIBRARY_PATH"] = public_libs(binary)
+        r.env["LD_LIBRARY_PATH"] = env["LD_LIBRARY_PATH"]
     r.asuser = bool(kw)
     argv_b = [a if isinstance(a, bytes) else os.fsencode(a) for a in r.argv]
     if any(b"\0" in a for a in argv_b):
@@ -346,6 +367,10 @@ def attach_plan(r, plans, base_plan=None):
                         a run that does not succeed may not make a single output call."""
     if r.status == 0 and r.signal == 0:
         ops, nin = sr.plan_from_events(r.logged)
+        if not any(op["call"] == "mkdir" and op["path"] == "." for op in ops):
+            for op in ops:          # the output directory itself already existed: nothing to create before its children
+                if op["dir"] == ".":
+                    op["dir"] = ""
         key = "self-" + vlib.sha(json.dumps(ops), str(nin))
         if key not in plans:
             plans[key] = Plan(key, ops, nin, None)
@@ -367,6 +392,27 @@ def validate(batch):
     tag, runs, plans, wd = batch
     refs = {n: plans[n] for n in {r.schema for r in runs}}
     return sr.validate_runs(None, runs, refs, wd, tag="tv-" + tag)
+
+
+def make_batches(runs, plans, wd, prefix):
+    """Runs sharing a plan go together (the trace spec carries every plan of its
+    batch in its state): short episodes by the hundred, long ones by plan."""
+    short = [r for r in runs if len(r.events) <= 40]
+    long_ = sorted((r for r in runs if len(r.events) > 40), key=lambda r: (r.schema, r.id))
+    batches = [("%ss%03d" % (prefix, i), chunk, plans, wd) for i, chunk in enumerate(vlib.chunks(short, 400))]
+    cur, lines, names = [], 0, set()
+    n = 0
+    for r in long_:
+        if cur and (lines + len(r.events) > 4000 or len(names | {r.schema}) > 8):
+            batches.append(("%sl%03d" % (prefix, n), cur, plans, wd))
+            n += 1
+            cur, lines, names = [], 0, set()
+        cur.append(r)
+        lines += len(r.events)
+        names.add(r.schema)
+    if cur:
+        batches.append(("%sl%03d" % (prefix, n), cur, plans, wd))
+    return batches
 
 
 def classify(r, rec):
@@ -443,7 +489,43 @@ def execute(job, kind, binary, rdir, second_xml, tag=""):
     r = run_files(binary, kind, job.files, job.argv, rdir, "%s%s-%s" % (tag, job.jid, kind), "", asuser="nobody" in job.env,
                   second_xml=second_xml)
     r.job = job
+    r.second = None
     return r
+
+
+def abnormal(r):
+    """worth an immediate second execution (scheduling only - TLC decides what is rejected)"""
+    return r.signal != 0 or r.ub is not None or (r.status != 0 and not sr.diag_event(r.stdout, r.stderr)["present"])
+
+
+_CTX = {}
+
+
+def _task(job):
+    """worker process: materialize one job, run it through both builds"""
+    c = _CTX
+    if job.files is None:
+        materialize(job, c["base_docs"])
+    out = []
+    for kind in ("san", "plain"):
+        r = execute(job, kind, c["bins"][kind], c["rdir"], c["second_xml"])
+        if not r.not_run and abnormal(r):
+            r.second = execute(job, kind, c["bins"][kind], c["rdir"], c["second_xml"], tag="again-")
+        out.append(r)
+    return job, out
+
+
+def _again(t):
+    job, kind = t
+    c = _CTX
+    return execute(job, kind, c["bins"][kind], c["rdir"], c["second_xml"], tag="again-")
+
+
+def pool_map(fn, items, chunk=8):
+    from concurrent.futures import ProcessPoolExecutor
+    import multiprocessing
+    with ProcessPoolExecutor(max_workers=PAR, mp_context=multiprocessing.get_context("fork")) as ex:
+        return list(ex.map(fn, items, chunksize=chunk))
 
 
 def corpus_jobs():
@@ -532,13 +614,24 @@ def run(v, tier, seed):
                 ref = Plan("base-" + name, ops, nin, dict(r.tree))
         base_plan[name] = ref
 
-    # ---- 3. every case through both builds -----------------------------------------
+    # ---- 3. every case through both builds (worker processes) ---------------------------
     t1 = time.time()
-    vlib.parallel(jobs, lambda j: materialize(j, base_docs), nproc=4)
+    _CTX.update(base_docs=base_docs, bins=bins, rdir=rdir, second_xml=second_xml)
+    public_libs(bins["plain"])
+    runs, done = [], []
+    # (the slow cases - hangs - are spread by the seed, not clustered at the end)
+    order = list(jobs)
+    random.Random(seed).shuffle(order)
+    for job, rs in pool_map(_task, order):
+        done.append(job)
+        for r in rs:
+            r.job = job
+            if r.second is not None:
+                r.second.job = job
+            runs.append(r)
+    jobs = sorted(done, key=lambda j: j.jid)
     distinct_inputs = len({j.key for j in jobs})
     vacuous = sum(1 for j in jobs if j.vac)
-    ejobs = [(j, kind) for j in jobs for kind in ("san", "plain")]
-    runs = vlib.parallel(ejobs, lambda jk: execute(jk[0], jk[1], bins[jk[1]], rdir, second_xml), nproc=PAR)
     not_run = [r for r in runs if r.not_run]
     runs = [r for r in runs if not r.not_run]
     t_exec = time.time() - t1
@@ -553,10 +646,7 @@ def run(v, tier, seed):
 
     # ---- 4. TLC judges the runs (SbeppcTrace), in batches ----------------------------
     t2 = time.time()
-    heavy = [r for r in runs if len(r.events) > 400]
-    light = [r for r in runs if len(r.events) <= 400]
-    batches = [("b%03d" % i, chunk, plans, wd) for i, chunk in enumerate(vlib.chunks(light, 250))]
-    batches += [("h%03d" % i, chunk, plans, wd) for i, chunk in enumerate(vlib.chunks(heavy, 12))]
+    batches = make_batches(runs, plans, wd, "b")
     results = vlib.parallel(batches, validate, nproc=PAR)
     tv_states = sum(res.distinct for _, res in results)
     rejected = [rec for rej, _ in results for rec in rej]
@@ -570,12 +660,18 @@ def run(v, tier, seed):
         r = byid[rec["rejected"]]
         what, desc = classify(r, rec)
         first.append((r, what, desc))
-    again = vlib.parallel(first, lambda t: execute(t[0].job, t[0].kind, bins[t[0].kind], rdir, second_xml, tag="again-"), nproc=PAR)
+    todo = [(r.job, r.kind) for r, _, _ in first if r.second is None]
+    fresh = iter(pool_map(_again, todo, chunk=1) if todo else [])
+    again = []
+    for r, _, _ in first:
+        r2 = r.second if r.second is not None else next(fresh)
+        r2.job = r.job
+        again.append(r2)
     for r2 in again:
         plan_of(r2)
     rej2 = {}
     if again:
-        b2 = [("again%03d" % i, chunk, plans, wd) for i, chunk in enumerate(vlib.chunks(again, 60))]
+        b2 = make_batches(again, plans, wd, "again")
         for rej, res in vlib.parallel(b2, validate, nproc=PAR):
             tv_states += res.distinct
             for rec in rej:
